@@ -131,11 +131,11 @@ func verifyEnforcedCanonicalJSON(input []byte) error {
 			valid = false
 			return false
 		}
-		if value.Num != 0 && strings.ContainsRune(value.Raw, '.') {
+		if value.Type == gjson.Number && strings.ContainsRune(value.Raw, '.') {
 			valid = false
 			return false
 		}
-		if value.Num != 0 && (strings.ContainsRune(value.Raw, 'e') || strings.ContainsRune(value.Raw, 'E')) {
+		if value.Type == gjson.Number && (strings.ContainsRune(value.Raw, 'e') || strings.ContainsRune(value.Raw, 'E')) {
 			valid = false
 			return false
 		}
